@@ -287,6 +287,27 @@ def run(ctx):
                 if c.name in ("value_lane", "supply_lane", "map_lane", "lane_synced") and "ItemResponse" in c.defpath:
                     g = dom_guards(b, c.block)
                     v = [l for d, l, _ in g if d == "disc(resp)"]
+                    if not v and c.name != "lane_synced":
+                        # one constructor call behind `let (target, body) = match resp { StandardEvent(b) => (None, b), SyncEvent(id, b) => (Some(id), b), .. }`:
+                        # what the target holds when the call is reached from each arm
+                        sw_ = [sb for sb in range(b.n) if b.term(sb)["k"] == "switch" and not b.is_cleanup(sb) and switch_desc(b, sb) == "disc(resp)"]
+                        ve_ = (b.variant_edges(sw_[0]) or {}) if sw_ else {}
+                        seen_v = 0
+                        for v_, want, what in (("StandardEvent", 0, "broadcast"), ("SyncEvent", 1, "targeted")):
+                            if v_ not in ve_ or c.block not in b.reachable_assuming(sw_[0], v_):
+                                continue
+                            seen_v += 1
+                            got = b.variants_at([ve_[v_]], c.block, c.args[2])
+                            somes = [describe_rvalue(b, rv_) for i_, j_, p_, rv_, l_ in b.assigns() if rv_[0] == "agg" and describe_rvalue(b, rv_).startswith("Option::Some(") and any(d_ == "disc(resp)" and l2 == v_ for d_, l2, _ in dom_guards(b, i_))]
+                            okp = want == 0 or (bool(somes) and all("<SyncEvent>.0" in x for x in somes))
+                            r.check(got == {want} and okp, "%s/%s=>%s/%s" % (fn, v_, what, c.name), c.loc(), "%s -> target %s" % (v_, "None (broadcast)" if want == 0 else "Some(id)"),
+                                    "%s reaches %s with a target that is %s (%s)" % (v_, c.name, sorted(map(str, got)), somes))
+                            if fn == "value_or_supply_raw_response":
+                                k = [l for d, l, _ in g if d == "disc(uplink)"]
+                                r.check(k and ((k[0] == "Value") == (c.name == "value_lane")), "%s/%s/kind-%s" % (fn, v_, c.name), c.loc(), "uplink kind %s -> %s" % (k, c.name), "uplink kind %s routed to %s" % (k, c.name))
+                        if not seen_v:
+                            r.bad("%s/%s/variant" % (fn, c.name), c.loc(), "constructor call not reached from an event arm of the match on the response")
+                        continue
                     if not v:
                         r.bad("%s/%s/variant" % (fn, c.name), c.loc(), "constructor call not under a match on the response")
                         continue
